@@ -5,6 +5,8 @@ pub mod c16;
 pub mod c15;
 pub mod c13;
 pub mod c17;
+pub mod c12;
+pub mod c05;
 
 use crate::histex::BResult;
 use crate::props::Tier;
@@ -16,6 +18,8 @@ pub fn run(prop: &str, tier: Tier) -> Option<BResult> {
         "C15" => Some(c15::run(tier)),
         "C13" => Some(c13::run(tier)),
         "C17" => Some(c17::run(tier)),
+        "C12" => Some(c12::run(tier)),
+        "C05" => Some(c05::run(tier)),
         _ => None,
     }
 }
